@@ -85,7 +85,10 @@ class C16(Prop):
         only = None
         if long_history:
             bench, only = None, ["cagr", "cumret", "maxdd", "calmar"]
-        return dict(only=only, times=times, values=vals, bench=bench, rf=fr(F(round(rng.uniform(0, 0.05), 4))),
+        tz_hours = rng.choice([9, -5, 13, -10]) if rng.random() < 0.2 else None
+        if tz_hours:
+            bench = None
+        return dict(tz_hours=tz_hours, only=only, times=times, values=vals, bench=bench, rf=fr(F(round(rng.uniform(0, 0.05), 4))),
                     scale=fr(F(rng.choice([0.001, 2.0, 1000.0, 7.5]))), q=rng.choice(["1/40", "1/20", "1/2", "1/10"]),
                     corrupt=corrupt, intraday=intraday)
 
@@ -117,6 +120,11 @@ class C16(Prop):
             index = pd.DatetimeIndex(idx2)
         else:
             index = pd.DatetimeIndex(idx)
+            if case.get("tz_hours"):
+                # the same wall-clock times, timezone-aware (fixed offset): calendar days are those of the index's own
+                # zone, elapsed time is unaffected
+                import datetime as _dt
+                index = index.tz_localize(_dt.timezone(_dt.timedelta(hours=case["tz_hours"])))
         return pd.Series(vals, index=index, dtype=float), idx, vals
 
     def line(self, idx_us, vals, corrupt):
